@@ -40,7 +40,104 @@ HDR = {'8051': 0x31, 'z80': 0x51, '8080': 0x41, '6502': 0x11, '320c25': 0x75, '1
 
 def plan(tier, seed):
     n = 1500 if tier == 'quick' else 40000
-    return [{'i': i} for i in range(n)]
+    return [{'i': i} for i in range(n)] + [{'pad': i} for i in range(150 if tier == 'quick' else 4000)]
+
+
+def gen_padded_struct(rng):
+    """68000 (word alignment of ds.w / ds.l, manual: 'the rules for rounding up lengths to assure certain alignments also apply here'):
+    structure with byte, word and long fields, its field symbols, length, and an instance"""
+    lines = ['\tcpu\t68000', '\torg\t$%x' % rng.choice([0x1000, 0x2000, 0x4002])]
+    exp = {}
+    fields = []
+    lab = [0]
+
+    def nl(p):
+        lab[0] += 1
+        return '%s%d' % (p, lab[0])
+
+    def level(name, depth, prefix, base):
+        lines.append('%s\tstruct' % (name or ''))
+        offs = 0
+        for _ in range(rng.randrange(1, 6)):
+            r = rng.random()
+            if depth < 2 and r < 0.2:
+                # a sub-structure starts where its first field will lie only if that is aligned: keep it on an even offset
+                if (base + offs) & 1:
+                    f = nl('f')
+                    lines.append('%s\tds.b\t1' % f)
+                    fields.append((prefix + f.upper(), base + offs))
+                    offs += 1
+                sub = nl('s') if rng.random() < 0.5 else None
+                if sub:
+                    fields.append((prefix + sub.upper(), base + offs))
+                n = level(sub, depth + 1, prefix + (sub.upper() + '_' if sub else ''), base + offs)
+                if sub:
+                    fields.append((prefix + sub.upper() + '_LEN', None, n))
+                offs += n
+                continue
+            f = nl('f')
+            size, op = rng.choice([(1, 'ds.b'), (1, 'ds.b'), (2, 'ds.w'), (4, 'ds.l')])
+            cnt = rng.randrange(1, 4)
+            if size > 1 and (base + offs) & 1:
+                offs += 1            # padding in front of the word-sized reservation; the label moves with it
+            lines.append('%s\t%s\t%d' % (f, op, cnt))
+            fields.append((prefix + f.upper(), base + offs))
+            offs += size * cnt
+        lines.append('%s\tendstruct' % (name or ''))
+        return offs
+
+    sname = nl('st')
+    total = level(sname, 0, '', 0)
+    for fld in fields:
+        exp['%s_%s' % (sname.upper(), fld[0])] = fld[2] if fld[1] is None else fld[1]
+    exp['%s_LEN' % sname.upper()] = total
+    iname = nl('i')
+    lines.append('%s\t%s' % (iname, sname))
+    base = int(lines[1].split('$')[1], 16)
+    exp[iname.upper()] = base
+    for fld in fields:
+        if fld[1] is not None:
+            exp['%s_%s' % (iname.upper(), fld[0])] = base + fld[1]
+    after = nl('z')
+    lines.append('%s:\tdc.b\t1' % after)
+    exp[after.upper()] = base + total
+    return '\n'.join(lines) + '\n', exp
+
+
+def run_padded(case, ctx):
+    out = ctx.out
+    text, exp = gen_padded_struct(ctx.rng)
+    ctx.write('g.asm', text)
+    a = asl.assemble(ctx, 'g.asm', [], trace=True, timeout=60)
+    tag = 'padded structure #%d (68000)' % ctx.idx
+    out.sample = {'padded': ctx.idx, 'source': text.split('\n')[:30]}
+    if a.run.timed_out:
+        out.inconc('timeout')
+        return
+    if a.run.san:
+        out.violate(a.run.san, '%s: %s' % (tag, a.run.err.decode('latin-1')[-500:]))
+        return
+    if a.rc == 97 or a.rc == 96:
+        out.violate('pass-livelock:padded-structure', '%s: assembly does not come to an end (status %s)' % (tag, a.rc))
+        return
+    if a.rc != 0:
+        out.violate('valid-program-rejected:padded-structure', '%s: rc=%s %s' % (tag, a.rc, a.run.text()[-400:].replace('\n', ' | ')))
+        return
+    syms = {}
+    for e in a.trace:
+        if e['k'] == 'S' and e['sect'] == -1 and e['typ'] == 'I':
+            syms[e['name']] = int(e['val'], 16)
+    for name, want in exp.items():
+        if name not in syms:
+            out.violate('symbol-missing:padded-structure', '%s: %s not in the final symbol table' % (tag, name))
+        elif syms[name] != want:
+            out.violate('symbol-value-wrong:padded-struct-field', '%s: %s = %#x, model says %#x | %s' % (tag, name, syms[name], want, text.replace('\n', ' / ')[:400]))
+        else:
+            out.obs['symbols_checked'] += 1
+    out.sets['statement_kinds'].add('padded-struct')
+    out.sets['targets'].add('68000')
+    out.nontrivial = True
+    out.sig = ('pad', len(exp), text.count('ds.w') + text.count('ds.l'), text.count('struct'))
 
 
 class Model:
@@ -284,6 +381,8 @@ def gen(rng):
 
 
 def run_case(case, ctx):
+    if 'pad' in case:
+        return run_padded(case, ctx)
     out = ctx.out
     cpu, text, exp_emit, exp_sym, kinds, depth, segs, exp_seg = gen(ctx.rng)
     ctx.write('g.asm', text)
